@@ -1105,7 +1105,8 @@ _dispatch_source_merge_evt(dispatch_unote_t du, uint32_t flags,
 	dispatch_source_t ds = _dispatch_source_from_refs(du._dr);
 
 	dispatch_unote_state_t du_state = _dispatch_unote_state(du);
-	if (!(flags & EV_UDATA_SPECIFIC) && !_du_state_registered(du_state)) {
+	if (!(flags & EV_UDATA_SPECIFIC) && (flags & EV_ONESHOT) &&
+			!_du_state_registered(du_state)) {
 		if (!du._du->du_is_timer) {
 			// Timers must be unregistered from their target queue, else this
 			// unregistration can race with the optimization in
